@@ -248,8 +248,10 @@ static void case_fuzzy(Tape &t, Ctx &cx)
     };
     double *me = dup(f.me), *mec = dup(f.mec), *kp = dup(f.kp), *ki = dup(f.ki), *kd = dup(f.kd);
     size_t nb = A_PID_FUZZY_BFUZZ(f.n); // room for every set being active at once
-    void *buf = malloc(nb);
-    struct Fr { double *a, *b, *c, *d, *e; void *buf; ~Fr() { free(a); free(b); free(c); free(d); free(e); free(buf); } } fr{me, mec, kp, ki, kd, buf};
+    void *buf = malloc(nb), *buf2 = malloc(nb);
+    struct Fr { double *a, *b, *c, *d, *e; void *buf, *buf2; ~Fr() { free(a); free(b); free(c); free(d); free(e); free(buf); free(buf2); } } fr{me, mec, kp, ki, kd, buf, buf2};
+    a_pid_fuzzy fresh;
+    bool have_fresh = false;
     a_pid_fuzzy_set_rule(&z, f.n, me, mec, f.use_kp ? kp : nullptr, f.use_ki ? ki : nullptr, f.use_kd ? kd : nullptr);
     a_pid_fuzzy_set_bfuzz(&z, buf, f.n);
     a_pid_fuzzy_init(&z);
@@ -275,6 +277,15 @@ static void case_fuzzy(Tape &t, Ctx &cx)
             a_pid_zero(&plain);
             zeroed = true;
             cx.label(L_ZERO_MID);
+            // a freshly initialised controller with the same configuration
+            memset(&fresh, 0, sizeof(fresh));
+            apply(fresh.pid, c);
+            a_pid_fuzzy_set_opr(&fresh, f.opr);
+            a_pid_fuzzy_set_rule(&fresh, f.n, me, mec, f.use_kp ? kp : nullptr, f.use_ki ? ki : nullptr, f.use_kd ? kd : nullptr);
+            a_pid_fuzzy_set_bfuzz(&fresh, buf2, f.n);
+            a_pid_fuzzy_init(&fresh);
+            a_pid_fuzzy_set_kpid(&fresh, c.kp, c.ki, c.kd);
+            have_fresh = true;
             continue;
         }
         double set, fdb;
@@ -288,8 +299,25 @@ static void case_fuzzy(Tape &t, Ctx &cx)
         cx.hash.addd(set);
         cx.hash.addd(fdb);
         int mode = op == 0 ? 0 : op <= 4 ? 1 : 2;
+        double e_now = set - fdb, ec_now = e_now - z.pid.err;
         double got = mode == 0 ? a_pid_fuzzy_run(&z, set, fdb) : mode == 1 ? a_pid_fuzzy_pos(&z, set, fdb) : a_pid_fuzzy_inc(&z, set, fdb);
         check_state(cx, z.pid, "fuzzy", s);
+        {
+            // the gains used in this step are the base gains plus the weighted mean of the active consequents
+            LD dg[3];
+            ref_gains(f, e_now, ec_now, dg, nullptr);
+            double base[3] = {c.kp, c.ki, c.kd}, cur[3] = {z.pid.kp, z.pid.ki, z.pid.kd};
+            for (int k = 0; k < 3; ++k)
+            {
+                LD tol = 64 * (f.n * f.n + 4) * 1.1102230246251565e-16L * (fabsl((LD)base[k]) + 8);
+                if (!(fabsl((LD)cur[k] - ((LD)base[k] + dg[k])) <= tol)) { cx.fail("pid:fuzzy_gain_schedule", "step %u (e=%.17g, ec=%.17g): gain %d is %.17g, base %.17g + weighted mean %.17Lg expected", s, e_now, ec_now, k, cur[k], base[k], dg[k]); }
+            }
+        }
+        if (have_fresh)
+        {
+            double gf = mode == 0 ? a_pid_fuzzy_run(&fresh, set, fdb) : mode == 1 ? a_pid_fuzzy_pos(&fresh, set, fdb) : a_pid_fuzzy_inc(&fresh, set, fdb);
+            VP_CHECK(cx, memcmp(&gf, &got, 8) == 0 && z.pid.sum == fresh.pid.sum, "pid:zero_not_fresh", "fuzzy step %u after zero: output %.17g, a freshly initialised controller gives %.17g", s, got, gf);
+        }
         VP_CHECK(cx, fin(z.kp) && fin(z.ki) && fin(z.kd), "pid:state_not_finite", "fuzzy step %u: base gains not finite", s);
         if (zero_rules)
         {
